@@ -599,15 +599,76 @@ Lemma ldexp_zero e k : ldexp_ieee (DFin 0 e) k = DFin 0 e.
 Proof. reflexivity. Qed.
 
 (* ldexp is exact when no bit is shifted out below 2^-1074 and the result stays below 2^1024 *)
+(* |m| >= 1, so a value below 2^1024 has an exponent below 1024 *)
+Lemma no_overflow_exp m e' :
+  m <> 0 -> EMIN <= e' -> Z.abs m * 2 ^ (e' - EMIN) < 2 ^ (EOVER - EMIN) -> e' < EOVER.
+Proof.
+  intros Hm He Hov.
+  destruct (Z_lt_le_dec e' EOVER) as [|Hge]; [assumption|exfalso].
+  assert (2 ^ (EOVER - EMIN) <= 2 ^ (e' - EMIN)) by (apply Z.pow_le_mono_r; unfold EMIN, EOVER in *; lia).
+  assert (0 < 2 ^ (e' - EMIN)) by (apply Z.pow_pos_nonneg; unfold EMIN in *; lia).
+  assert (1 <= Z.abs m) by lia.
+  nia.
+Qed.
+
 Lemma ldexp_exact m e k :
   m <> 0 -> EMIN <= e + k -> Z.abs m * 2 ^ (e + k - EMIN) < 2 ^ (EOVER - EMIN) ->
   ldexp_ieee (DFin m e) k = DFin m (e + k).
 Proof.
   intros Hm He Hov. unfold ldexp_ieee.
   destruct (Z.eqb_spec m 0) as [->|_]; [congruence|].
+  pose proof (no_overflow_exp m (e + k) Hm He Hov) as Hlt'.
+  destruct (Z.leb_spec EOVER (e + k)) as [Hle|_]; [lia|].
+  assert (0 <= Z.log2_up (Z.abs m)) by apply Z.log2_up_nonneg.
+  destruct (Z.ltb_spec (e + k) (EMIN - Z.log2_up (Z.abs m) - 2)) as [Hlt|_]; [lia|].
   destruct (Z.ltb_spec (e + k) EMIN) as [Hlt|_]; [lia|].
   destruct (Z.leb_spec (2 ^ (EOVER - EMIN)) (Z.abs m * 2 ^ (e + k - EMIN))) as [Hle|_]; [lia|].
   reflexivity.
+Qed.
+
+(* the two shortcuts of ldexp_ieee do not change its value *)
+Lemma round_to_grid_tiny m e' : m <> 0 -> e' < EMIN - Z.log2_up (Z.abs m) - 2 -> round_to_grid m e' = 0.
+Proof.
+  intros Hm He. unfold round_to_grid.
+  set (s := EMIN - e').
+  assert (0 <= Z.log2_up (Z.abs m)) as Hl by apply Z.log2_up_nonneg.
+  assert (Hs : Z.log2_up (Z.abs m) + 2 < s) by (unfold s; lia).
+  assert (Habs : Z.abs m <= 2 ^ Z.log2_up (Z.abs m)).
+  { destruct (Z.eq_dec (Z.abs m) 1) as [->|]; [simpl; lia|]. apply Z.log2_up_spec. lia. }
+  assert (Hpow : 2 ^ Z.log2_up (Z.abs m) * 4 <= 2 ^ (s - 1)).
+  { change 4 with (2 ^ 2). rewrite <- Z.pow_add_r by lia. apply Z.pow_le_mono_r; lia. }
+  assert (Hss : 2 ^ s = 2 * 2 ^ (s - 1)).
+  { replace s with (1 + (s - 1)) at 1 by lia. rewrite Z.pow_add_r by lia. reflexivity. }
+  assert (0 < 2 ^ (s - 1)) by (apply Z.pow_pos_nonneg; lia).
+  assert (0 < 2 ^ Z.log2_up (Z.abs m)) by (apply Z.pow_pos_nonneg; lia).
+  destruct (Z_lt_le_dec m 0) as [Hneg|Hpos].
+  - (* floor quotient -1, remainder m + 2^s > half *)
+    assert (Hq : m / 2 ^ s = -1).
+    { symmetry. apply (Z.div_unique m (2 ^ s) (-1) (m + 2 ^ s)); lia. }
+    assert (Hr : m mod 2 ^ s = m + 2 ^ s).
+    { symmetry. apply (Z.mod_unique m (2 ^ s) (-1) (m + 2 ^ s)); lia. }
+    rewrite Hq, Hr.
+    destruct (Z.ltb_spec (m + 2 ^ s) (2 ^ (s - 1))); [lia|].
+    destruct (Z.ltb_spec (2 ^ (s - 1)) (m + 2 ^ s)); [reflexivity|lia].
+  - assert (Hq : m / 2 ^ s = 0) by (apply Z.div_small; lia).
+    assert (Hr : m mod 2 ^ s = m) by (apply Z.mod_small; lia).
+    rewrite Hq, Hr.
+    destruct (Z.ltb_spec m (2 ^ (s - 1))); [reflexivity|lia].
+Qed.
+
+Lemma ldexp_shortcuts_agree x k : ldexp_ieee x k = ldexp_ieee_plain x k.
+Proof.
+  destruct x as [| | |m e]; try reflexivity.
+  unfold ldexp_ieee, ldexp_ieee_plain.
+  destruct (Z.eqb_spec m 0) as [->|Hm]; [reflexivity|].
+  assert (0 <= Z.log2_up (Z.abs m)) as Hl by apply Z.log2_up_nonneg.
+  destruct (Z.leb_spec EOVER (e + k)) as [Hge|Hlt].
+  - destruct (Z.ltb_spec (e + k) EMIN) as [H1|H1]; [unfold EMIN, EOVER in *; lia|].
+    destruct (Z.leb_spec (2 ^ (EOVER - EMIN)) (Z.abs m * 2 ^ (e + k - EMIN))) as [|Hsmall]; [reflexivity|].
+    exfalso. pose proof (no_overflow_exp m (e + k) Hm H1 Hsmall). lia.
+  - destruct (Z.ltb_spec (e + k) (EMIN - Z.log2_up (Z.abs m) - 2)) as [Htiny|_]; [|reflexivity].
+    destruct (Z.ltb_spec (e + k) EMIN) as [_|H1]; [|lia].
+    now rewrite round_to_grid_tiny.
 Qed.
 
 Lemma ldexp_exact_in_range_lemma m e k :
